@@ -8,8 +8,12 @@ package main
 //
 // Functions that only C03 / C08 pin are upgraded in place (same definition name in Shapes.lean).
 // Functions that other properties pin as well (Router.handleConn: C05, C09, C10; NewTLSConn: C09) keep
-// their entry; the "+full" view of them is generated under a second spelling of the file's path
-// ("network/./router.go" → `Shapes.network___router_Router_handleConn`), which names the same file.
+// their entry; the "+full" view of them is a second, aliased definition
+// (`Shapes.network_router_Router_handleConn_b3`, `Shapes.network_tls_NewTLSConn_b3`).
+//
+// "+args" (calls that are statements with their arguments, string literals verbatim) where the
+// literals or the arguments *are* the decision or the data flow: handleError's texts, makeVerifier's
+// URI scheme and what is appended to the signed buffer, the nonce that travels as acceptable CA.
 //
 // This file's init runs before the other targets_*.go (file-name order) and after the initialiser of
 // `targets` in main.go.
@@ -39,7 +43,7 @@ func init() {
 		"TCPConn.Send":                "TCPConn.Send+full",
 		"TCPConn.sendRaw":             "TCPConn.sendRaw+full",
 	})
-	add("network/tcp.go", "handleError+full", "TCPConn.receiveRaw+full")
+	add("network/tcp.go", "handleError+args", "TCPConn.receiveRaw+full")
 	upgrade("network/encoding.go", map[string]string{
 		"Marshal":        "Marshal+full",
 		"Unmarshal+cond": "Unmarshal+full",
@@ -50,21 +54,21 @@ func init() {
 		"LocalConn.Send":    "LocalConn.Send+full",
 		"LocalConn.Receive": "LocalConn.Receive+full",
 	})
-	add("network/./router.go", "Router.handleConn+full")
+	add("network/router.go", "Router.handleConn+full=b3")
 	// C08: what is signed, what is verified against what, which key is attached
 	upgrade("network/tls.go", map[string]string{
-		"makeVerifier+cond+lit":                 "makeVerifier+full+lit",
-		"certMaker.get+cond":                    "certMaker.get+full",
-		"certMaker.getCertificate":              "certMaker.getCertificate+full",
-		"certMaker.getClientCertificate+cond":   "certMaker.getClientCertificate+full",
-		"pubFromCN+cond":                        "pubFromCN+full",
-		"pubToCN":                               "pubToCN+full",
-		"mkNonce":                               "mkNonce+full",
-		"NewTLSListenerWithListenAddr":          "NewTLSListenerWithListenAddr+full",
-		"tlsConfig":                             "tlsConfig+full",
+		"makeVerifier+cond+lit":               "makeVerifier+args+lit",
+		"certMaker.get+cond":                  "certMaker.get+args",
+		"certMaker.getCertificate":            "certMaker.getCertificate+full",
+		"certMaker.getClientCertificate+cond": "certMaker.getClientCertificate+full",
+		"pubFromCN+cond":                      "pubFromCN+full",
+		"pubToCN":                             "pubToCN+args",
+		"mkNonce":                             "mkNonce+args",
+		"NewTLSListenerWithListenAddr":        "NewTLSListenerWithListenAddr+args",
+		"tlsConfig":                           "tlsConfig+full",
 	})
 	add("network/tls.go", "newCertMaker+full")
-	add("network/./tls.go", "NewTLSConn+full")
+	add("network/tls.go", "NewTLSConn+full=b3")
 	upgrade("network/router.go", map[string]string{
 		"Router.receiveServerIdentity+cond": "Router.receiveServerIdentity+full",
 	})
